@@ -287,6 +287,7 @@ var errInjected = errors.New("verif-injected-write-failure-7f3a")
 type FaultWriter struct {
 	K, Accept int
 	Sticky    bool
+	Err       error // the error this writer fails with (default errInjected)
 
 	Calls     [][]byte // every Write call's argument (copied)
 	Accepted  []byte   // bytes accepted up to and including the failing call
@@ -295,13 +296,20 @@ type FaultWriter struct {
 	PostCalls int // Write attempts after the failure
 }
 
+func (w *FaultWriter) fail() error {
+	if w.Err != nil {
+		return w.Err
+	}
+	return errInjected
+}
+
 func (w *FaultWriter) Write(p []byte) (int, error) {
 	i := len(w.Calls)
 	w.Calls = append(w.Calls, append([]byte(nil), p...))
 	if w.Fired {
 		w.PostCalls++
 		if w.Sticky {
-			return 0, errInjected
+			return 0, w.fail()
 		}
 		w.AfterFail = append(w.AfterFail, p...)
 		return len(p), nil
@@ -316,7 +324,7 @@ func (w *FaultWriter) Write(p []byte) (int, error) {
 			a = 0
 		}
 		w.Accepted = append(w.Accepted, p[:a]...)
-		return a, errInjected
+		return a, w.fail()
 	}
 	w.Accepted = append(w.Accepted, p...)
 	return len(p), nil
@@ -328,10 +336,15 @@ type FaultStringWriter struct{ *FaultWriter }
 
 func (w FaultStringWriter) WriteString(s string) (int, error) { return w.Write([]byte(s)) }
 
-// carries reports whether err carries the injected failure.
-func carries(err error) bool {
-	for i := 0; err != nil && i < 20; i++ {
-		if err == errInjected || strings.Contains(err.Error(), errInjected.Error()) {
+// carries reports whether err carries the injected failure: the writer's own
+// error value must be reachable through Cause() / Unwrap() (SourceError exists to
+// record "an error with a source location and optional cause"); its text merely
+// being quoted in another error's message does not carry the failure.
+func carries(err error) bool { return carriesErr(err, errInjected) }
+
+func carriesErr(err, want error) bool {
+	for i := 0; err != nil && i < 30; i++ {
+		if err == want || errors.Is(err, want) {
 			return true
 		}
 		if c, ok := err.(interface{ Cause() error }); ok && c.Cause() != nil && c.Cause() != err {
